@@ -1297,18 +1297,20 @@ def sweep_dtype_boundaries(ctx, B):
                     B.add(f'samplearray {introws_tok(mat)}', f'ok {arr.dtype.name} {introws_tok(arr.tolist())}', 'sampleset._sample_array', ic, f'as_samples({expr})')
             if abs(bv) != 2 ** w:
                 continue
-            # energies at ±2^w: 0.5·x + 1·b + 0.25 with b = 1 — exact in double
+            # energies at ±2^w: 0.5·x + 1·b + off with b = 1, off = 0.25 (b = 0, off = 0 at 2^63, where only x/2 itself is exact in double)
             script = hdr + ('from dimod import QuadraticModel as QM, ConstrainedQuadraticModel as CQM\nq = QM()\n'
                             'q.add_variable("REAL", "x", lower_bound=-1e19, upper_bound=1e19); q.add_variable("BINARY", "b")\n'
-                            'q.set_linear("x", 0.5); q.set_linear("b", 1); q.offset = 0.25\nc = CQM(); c.set_objective(q); c.add_constraint_from_model(q, "<=", 1, label="k")\n')
+                            f'q.set_linear("x", 0.5); q.set_linear("b", 1); q.offset = {0.25 if w < 63 else 0}\n'
+                            'c = CQM(); c.set_objective(q); c.add_constraint_from_model(q, "<=", 1, label="k")\n')
             exec(script, ns)
-            want = Fraction(bv) / 2 + 1 + Fraction(1, 4)
+            bval = 1 if w < 63 else 0
+            want = Fraction(bv) / 2 + (1 + Fraction(1, 4) if w < 63 else 0)
             for target, site in (('q', 'QM.energies'), ('c.objective', 'CQM.objective.energies'), ('c.constraints["k"].lhs', 'CQM.constraint.lhs.energies')):
-                for form, expr in (('dict', f'{{"x": {bv}, "b": 1}}'), ('list+labels', f'([[1, {bv}]], ["b", "x"])'), ('dicts', f'[{{"b": 1, "x": {bv}}}]')):
+                for form, expr in (('dict', f'{{"x": {bv}, "b": {bval}}}'), ('list+labels', f'([[{bval}, {bv}]], ["b", "x"])'), ('dicts', f'[{{"b": {bval}, "x": {bv}}}]')):
                     ic = f'largest magnitude in the sample array is {name}'
                     ctx.tick(f'dtype sweep: {site}')
                     ctx.case(('dtype sweep', target, expr), nontrivial=True)
-                    repro = script + f'from fractions import Fraction\ngot = [Fraction(float(e)) for e in {target}.energies({expr})]\nassert got == [Fraction({bv}) / 2 + Fraction(5, 4)], got\n'
+                    repro = script + f'from fractions import Fraction\ngot = [Fraction(float(e)) for e in {target}.energies({expr})]\nassert got == [Fraction({want.numerator}, {want.denominator})], got\n'
                     try:
                         got = [F(e) for e in eval(f'{target}.energies({expr})', ns)]
                     except Exception as e:  # noqa
